@@ -28,7 +28,7 @@ def workload(prop, tier, seed, stream, k):
         L = [ln if not ln.startswith("set_param p0 4 ") and not ln.startswith("set_param p1 4 ") else ln[:15] + str(rnd.choice([0, 1, 2, 3])) for ln in c.script]
     elif stream == "hist":
         if k % 6 == 5:
-            c = hist.gen_c06(tier, seed + 1000, "matgrow", k)
+            c = hist.gen_c06(tier, seed + 1000, "matgrow" if k % 12 == 5 else "namechurn", k)
         else:
             c = hist.gen_c05(tier, seed + 1000, ("rand", "warm", "basisload", "pattern")[k % 4], k)
         L = c.script
@@ -42,7 +42,18 @@ def workload(prop, tier, seed, stream, k):
         odd = rnd.choice(["set_param_num p0 6 1/%d" % (2 ** rnd.choice([1100, 2000])), "set_param_num p0 6 %d" % (10 ** rnd.choice([30, 200])),
                           "set_param p0 5 1", "set_param p0 5 2999", "set_param_num p0 8 -%d" % (10 ** 140), "set_param_num p0 9 %d" % (10 ** 140),
                           "set_param_num p0 8 1/%d" % (2 ** 1100), "set_param p0 4 3"])
-        L = L[:i] + [odd] + L[i:] + ["opt_dual p0", "solve_exact p0 dual - xy", "copy_dbl p0", "copy_mpf p0 128"]
+        if k % 3 == 0:
+            # a progress reporter of the caller with a short interval, on solves that iterate on the problem itself (no scaled copy)
+            odd = "set_reporter p0 %d" % rnd.choice([1, 2, 5, 9, 10, 11, 25])
+            L = [ln for ln in L if not ln.startswith("set_param p0 7 ")]
+            i = next((t for t, ln in enumerate(L) if ln.startswith(("solve_exact", "opt_primal", "opt_dual"))), len(L))
+            L = L[:i] + ["set_param p0 7 0", "set_param p0 4 %d" % rnd.choice([0, 1])] + L[i:]
+            i += 2
+            if i < len(L):
+                L[i] = rnd.choice(["opt_primal p0", "opt_dual p0"])
+            L = L[:i] + [odd] + L[i:] + ["opt_primal p0", "opt_dual p0", "solve_exact p0 dual - xy"]
+        else:
+            L = L[:i] + [odd] + L[i:] + ["opt_dual p0", "solve_exact p0 dual - xy", "copy_dbl p0", "copy_mpf p0 128"]
     elif stream == "probe":
         allc = c07.gen_cases(tier)
         c = allc[rnd.randrange(len(allc))]
